@@ -222,7 +222,7 @@ def run_check(ctx, kind):
                 totals[k] = totals.get(k, 0) + v
         if c == cfgs[0]:
             dist[meta["profile"]] = dist.get(meta["profile"], 0) + 1
-            for k in ("zero_length", "touching", "forced_touch", "tau_var", "strict", "amount_eq_capacity", "amount_zero", "same_start", "nested", "overconstrained"):
+            for k in ("zero_length", "touching", "forced_touch", "tau_var", "strict", "amount_eq_capacity", "amount_zero", "same_start", "nested", "overconstrained", "hierarchy", "sv_hierarchy", "base_predicate_on_derived_instance"):
                 if meta.get(k):
                     dist["with_" + k] = dist.get("with_" + k, 0) + 1
         if r.timed_out:
